@@ -20,7 +20,7 @@ vars == <<i, l, st, v>>
 TICK == 1000000
 
 IsUngetByte(b) == b \in 1..26
-St0 == [wireIn |-> <<>>, wireOut |-> <<>>, ungetIn |-> <<>>, ungetOut |-> <<>>,
+St0 == [wireIn |-> <<>>, wireOut |-> <<>>, keysIn |-> <<>>, keysOut |-> 0, ungetIn |-> <<>>, ungetOut |-> <<>>,
         trig |-> <<>>, ts |-> <<>>, sched |-> <<>>, sigs |-> 0, tswrites |-> 0,
         gone |-> {}, schedOut |-> <<>>,
         open |-> FALSE, T |-> -1, t0 |-> 0, deliverable |-> FALSE, schedAtStart |-> FALSE, bigRead |-> FALSE,
@@ -40,6 +40,13 @@ Deliverable(s, t) ==
   \/ WireBacklog(s) > 0 \/ UngetBacklog(s) > 0 \/ DueSched(s, t)
 
 \* bytes of a key / paste delivered: split by source, each must continue its own stream
+\* keypress level: the wire keys delivered (keys made of unget bytes aside) must be exactly the next
+\* keypresses that arrived, one delivered key per arrived keypress - never fragments, never merged
+WireKeys(keys) == SelectSeq(keys, LAMBDA k : k # <<>> /\ ~(\A j \in 1..Len(k) : IsUngetByte(k[j])))
+KeypressVerdict(s, keys) ==
+  LET wk == WireKeys(keys)
+  IN IF s.keysOut + Len(wk) <= Len(s.keysIn) /\ SubSeq(s.keysIn, s.keysOut + 1, s.keysOut + Len(wk)) = wk THEN "ok"
+     ELSE "KeypressesAsTheyArrived"
 KeyBytesVerdict(s, bytes) ==
   LET u == SelectSeq(bytes, IsUngetByte)
       w == SelectSeq(bytes, LAMBDA b : ~IsUngetByte(b))
@@ -48,6 +55,7 @@ KeyBytesVerdict(s, bytes) ==
      ELSE "ok"
 AddBytes(s, bytes) == [s EXCEPT !.ungetOut = s.ungetOut \o SelectSeq(bytes, IsUngetByte),
                                 !.wireOut = s.wireOut \o SelectSeq(bytes, LAMBDA b : ~IsUngetByte(b))]
+AddKeys(s, keys) == [s EXCEPT !.keysOut = s.keysOut + Len(WireKeys(keys))]
 
 RetVerdict(s, e, pt) ==
   LET prompt == e.t1 - s.t0 < TICK /\ s.ticksInReq = 0
@@ -55,12 +63,15 @@ RetVerdict(s, e, pt) ==
      ELSE IF s.deliverable /\ (e.kind = "none" \/ e.kind = "blocked") THEN "ReturnsWhatIsAlreadyDeliverable"
      ELSE IF s.deliverable /\ ~prompt THEN "DoesNotBlockWhileDeliverable"
      ELSE IF e.kind = "key" THEN
-          (IF s.bigRead /\ pt >= 0 THEN "BurstComesBackAsOnePaste" ELSE KeyBytesVerdict(s, e.bytes))
+          (IF s.bigRead /\ pt >= 0 THEN "BurstComesBackAsOnePaste"
+           ELSE IF KeyBytesVerdict(s, e.bytes) # "ok" THEN KeyBytesVerdict(s, e.bytes)
+           ELSE KeypressVerdict(s, <<e.bytes>>))
      ELSE IF e.kind = "paste" THEN
           (IF ~s.bigRead THEN "PasteWithoutBurst"
            ELSE IF e.keys = <<>> THEN "EmptyPaste"
            ELSE IF Len(FlattenSeq(e.keys)) < s.bigN THEN "PasteHoldsWholeBurst"
-           ELSE KeyBytesVerdict(s, FlattenSeq(e.keys)))
+           ELSE IF KeyBytesVerdict(s, FlattenSeq(e.keys)) # "ok" THEN KeyBytesVerdict(s, FlattenSeq(e.keys))
+           ELSE KeypressVerdict(s, e.keys))
      ELSE IF e.kind = "event" THEN
           (IF e.id \in s.gone THEN "EventDeliveredTwice"
            ELSE IF Pending(s.trig, s.gone) # <<>> /\ Pending(s.trig, s.gone)[1] = e.id THEN "ok"
@@ -88,8 +99,8 @@ RetVerdict(s, e, pt) ==
 
 AfterRet(s, e) ==
   LET s1 == [s EXCEPT !.open = FALSE, !.bigRead = FALSE, !.ticksInReq = 0]
-  IN IF e.kind = "key" THEN AddBytes(s1, e.bytes)
-     ELSE IF e.kind = "paste" THEN AddBytes(s1, FlattenSeq(e.keys))
+  IN IF e.kind = "key" THEN AddKeys(AddBytes(s1, e.bytes), <<e.bytes>>)
+     ELSE IF e.kind = "paste" THEN AddKeys(AddBytes(s1, FlattenSeq(e.keys)), e.keys)
      ELSE IF e.kind = "event" \/ e.kind = "sched" THEN [s1 EXCEPT !.gone = s.gone \cup {e.id}]
      ELSE IF e.kind = "sigint" THEN [s1 EXCEPT !.sigs = Max2(0, s.sigs - 1)]
      ELSE s1
@@ -99,7 +110,7 @@ Next ==
   /\ l' = l + 1 /\ i' = i
   /\ LET e == Traces[i].ev[l]
          pt == Traces[i].paste
-     IN CASE e.k = "arrive" -> st' = [st EXCEPT !.wireIn = st.wireIn \o e.bytes] /\ v' = v
+     IN CASE e.k = "arrive" -> st' = [st EXCEPT !.wireIn = st.wireIn \o e.bytes, !.keysIn = st.keysIn \o e.keys] /\ v' = v
           [] e.k = "unget" -> st' = [st EXCEPT !.ungetIn = st.ungetIn \o e.bytes] /\ v' = v
           [] e.k = "trig" -> st' = [st EXCEPT !.trig = Append(st.trig, e.id)] /\ v' = v
           [] e.k = "tsappend" -> st' = [st EXCEPT !.ts = Append(st.ts, e.id)] /\ v' = v
